@@ -510,4 +510,35 @@ example : Ars.wf exUtf16 = true ∧
     (Ars.asBytes exUtf16).toOption = some [0, 0x0C, 0x05, 8, 0x34, 0, 0x37, 0, 0x31, 0, 0x31, 0, 0, 0] ∧
     (Ars.asBytes exUtf16).toOption.bind (fun bs => (Ars.fromBytes bs).toOption) = some exUtf16 := by decide +kernel
 
+/-! ## member values of the TMS / ARS enumerations (reference, DESIGN §2.1 / §8 "Constant tables")
+
+`Gen/Tms`, `Gen/Ars` are regenerated on every run and the models read the member values from them, so every round-trip
+theorem above is re-proved about whatever values the tree has.  The two protocols are Motorola proprietary (no public
+standard); the right-hand sides below are the values of the reviewed tree, which agree with the captured packets of the
+test-suite, written out in the statement — a renumbered or deleted member, or a `_missing_` hook that folds differently,
+no longer proves. -/
+
+/-- TMS: PDU types `(control, 4-bit type)` = availability (1, 0), acknowledgement (1, 15), text message (0, 0) and nothing
+else of the 32 combinations; encodings UNDEFINED 0, UCS2_LE 4, every other 5-bit value folds onto UNDEFINED;
+device capabilities 0..3 -/
+theorem tms_values_reference :
+    Gen.Tms.pduTypeVal = [(true, 0), (true, 15), (false, 0)] ∧
+    Gen.Tms.pduTypeGraph = (List.range 32).map (fun i => if i = 0 then some 2 else if i = 16 then some 0 else if i = 31 then some 1 else none) ∧
+    Gen.Tms.encodingVal = [0, 4] ∧
+    Gen.Tms.encodingGraph = (List.range 32).map (fun v => if v = 4 then some 1 else some 0) ∧
+    Gen.Tms.capabilityVal = [0, 1, 2, 3] ∧ Gen.Tms.capabilityGraph = [some 0, some 1, some 2, some 3] := by
+  decide +kernel
+
+/-- ARS: PDU types 0, 1, 5, 6, 7, 4, 15 (declaration order) and no other 4-bit value; registration events 0, 1, 2;
+encoding UTF8 = 0 only; failure reasons 0, 1, 2 and 255, every other value below 128 folds onto TRANSMISSION_FAILURE -/
+theorem ars_values_reference :
+    Gen.Ars.pduTypeVal = [0, 1, 5, 6, 7, 4, 15] ∧
+    Gen.Ars.pduTypeGraph = [some 0, some 1, none, none, some 5, some 2, some 3, some 4, none, none, none, none, none, none, none, some 6] ∧
+    Gen.Ars.eventVal = [0, 1, 2] ∧ Gen.Ars.eventGraph = [some 0, some 1, some 2, none] ∧
+    Gen.Ars.encodingVal = [0] ∧ Gen.Ars.encodingGraph = (List.range 32).map (fun v => if v = 0 then some 0 else none) ∧
+    Gen.Ars.failureVal = [0, 1, 2, 255] ∧
+    Gen.Ars.failureGraph = (List.range 128).map (fun v => if v < 3 then some v else some 3) ∧
+    Gen.Ars.csbkEnd = [0x10, 0x80] := by
+  decide +kernel
+
 end Dmr.C16
